@@ -15,7 +15,7 @@ SPEC = load_spec_module(os.path.join(HERE, '..', 'contracts', 'C10.py'), 'contra
 ST = 'jesse.strategies.Strategy.Strategy'
 BR = 'jesse.services.broker.Broker'
 SB = 'jesse.exchanges.sandbox.Sandbox.Sandbox'
-FUNCTIONS = ['jesse.store.state_orders.OrdersState.get_active_exit_orders', 'jesse.store.state_orders.OrdersState.get_exit_orders',
+FUNCTIONS = [f'{ST}._reset', 'jesse.store.state_orders.OrdersState.get_active_exit_orders', 'jesse.store.state_orders.OrdersState.get_exit_orders',
              'jesse.store.state_orders.OrdersState.get_entry_orders', f'{ST}._submit_buy_orders', f'{ST}._submit_sell_orders', f'{ST}._detect_and_handle_entry_and_exit_modifications',
              f'{ST}._on_close_position', f'{ST}._execute_cancel', f'{ST}._check', f'{ST}.liquidate', f'{ST}._get_formatted_order',
              f'{ST}._prepare_stop_loss', f'{ST}._prepare_take_profit', f'{ST}._prepare_buy', f'{ST}._prepare_sell',
@@ -274,7 +274,7 @@ def t_modify(kind, changed, nrows, orows=None):
     return t
 
 
-def t_selectors(ptype):
+def t_selectors(ptype, n_orders=3):
     """the order selectors the routing relies on (they are contracted calls in the modify / cancel harnesses):
     entry orders = active, not cancelled orders on the position's side (every submitted order while flat);
     (active) exit orders = (active) not cancelled orders on the closing side, none while flat"""
@@ -285,7 +285,7 @@ def t_selectors(ptype):
             common.open_position(h, pos, ptype)
         cls = h.repo.find('jesse.store.state_orders.OrdersState')
         orders = []
-        for j in range(3):
+        for j in range(n_orders):
             side = 'buy' if h.branch(h.bool(f'is_buy{j}')) else 'sell'
             st = h.ctx.fresh_str(f'status{j}', among=['ACTIVE', 'EXECUTED', 'CANCELED'])
             orders.append(common.mk_order(h, side=side, type='LIMIT', qty=Fraction(1) if side == 'buy' else Fraction(-1), price=Fraction(10),
@@ -328,6 +328,75 @@ def t_selectors(ptype):
                 'selectors.strategy-properties-delegate-to-the-order-registry')
         if ptype == 'long':
             h.prove(same_list(got, list(orders)), 'selectors.mustfail')
+    return t
+
+
+def t_reset(h):
+    """Strategy._reset: every declaration AND every remembered snapshot is cleared, so that the next trade's exits are compared
+    with nothing (a stale snapshot equal to the new declaration would suppress the submission of the new exit orders)"""
+    w = common.futures_world(h, mode='cross')
+    cur = h.real('cur', 0)
+    s, api = strategy(h, w, cur)
+    for name in ('buy', '_buy', 'sell', '_sell', 'stop_loss', '_stop_loss', 'take_profit', '_take_profit'):
+        s.f[name] = arr2(rows2(h, name.strip('_')[:2] + ('s' if name.startswith('_') else 'd'), 1))
+    s.f['increased_count'], s.f['reduced_count'] = h.int('inc', 0), h.int('red', 0)
+    calls = []
+    orders = Obj(None, {'reset_trade_orders': Builtin('reset_trade_orders', lambda i, a, k: calls.append(tuple(a)))})
+    store = Obj(None, {'orders': orders}, name='store')
+    h.ctx.cfg.globals['jesse.strategies.Strategy.store'] = lambda i: store
+    out = h.method_outcome(s, '_reset')
+    h.prove(out.ok, 'reset.no-exception', {'raised': out.exc})
+    if not out.ok:
+        return
+    left = [n for n in ('buy', '_buy', 'sell', '_sell', 'stop_loss', '_stop_loss', 'take_profit', '_take_profit') if s.f.get(n) is not None]
+    h.prove(left == [], 'reset.clears-every-declaration-and-every-remembered-snapshot', {'still_set': left})
+    h.prove(len(calls) == 1, 'reset.trade-orders-of-the-route-are-reset-once')
+
+
+def t_inplace_edit(kind):
+    """a declaration held as a numpy array and edited IN PLACE is a modification like any other: the remembered snapshot
+    must be a copy, not the declaration object itself"""
+    def t(h):
+        w = common.futures_world(h, mode='cross')
+        pos = w.positions['BTC-USDT']
+        cur = h.real('cur')
+        h.assume(ops.compare('>', cur, 0))
+        common.open_position(h, pos, 'long')
+        s, api = strategy(h, w, cur)
+        pos.f['current_price'] = cur
+        h.ctx.cfg.overrides[f'{ST}.active_exit_orders'] = lambda i, a, k: []
+        h.ctx.cfg.overrides[f'{ST}.entry_orders'] = lambda i, a, k: []
+        entry = arr2(rows2(h, 'b', 1))
+        s.f['buy'] = entry
+        s.f['_buy'] = entry
+        new = rows2(h, 'n', 1)
+        q, p = new[0]
+        if kind == 'stop_loss':
+            h.assume(ops.compare('<', p, ops.arith('*', cur, Fraction('0.98'))))
+        else:
+            h.assume(ops.compare('>', p, ops.arith('*', cur, Fraction('1.02'))))
+        decl = arr2(new)                       # the strategy holds its declaration as a numpy array
+        s.f[kind] = decl
+        s.f['_' + kind] = None
+        out = h.method_outcome(s, '_detect_and_handle_entry_and_exit_modifications')
+        h.prove(out.ok, f'inplace.{kind}.no-exception', {'raised': out.exc})
+        if not out.ok:
+            return
+        n1 = len([c for c in api.calls if c[0] != 'CANCEL'])
+        h.prove(n1 == 1, f'inplace.{kind}.first-declaration-is-submitted')
+        # in-place edit of the price (still on its own side of the market)
+        cur_decl = s.f[kind]
+        delta = h.real('delta')
+        h.assume(ops.land(ops.compare('>', delta, 0), ops.compare('<', delta, ops.arith('*', cur, Fraction('0.005')))))
+        newp = ops.arith('+', p, delta) if kind == 'stop_loss' else ops.arith('-', p, delta)
+        h.interp.lib.setitem(h.interp, cur_decl, (0, 1), newp)
+        out2 = h.method_outcome(s, '_detect_and_handle_entry_and_exit_modifications')
+        h.prove(out2.ok, f'inplace.{kind}.no-exception', {'raised': out2.exc})
+        if not out2.ok:
+            return
+        subs = [c for c in api.calls if c[0] != 'CANCEL']
+        h.prove(len(subs) == 2 and ops.equal(subs[-1][1][3], newp) is True or (len(subs) == 2 and h.ctx.prove(ops.equal(subs[-1][1][3], newp), f'inplace.{kind}.resubmitted-at-the-edited-price')),
+                f'inplace.{kind}.an-in-place-edit-of-the-declaration-is-detected', {'submissions': len(subs)})
     return t
 
 
@@ -475,7 +544,12 @@ def tasks(tier):
         for n, o in ((1, 2), (2, 1), (2, 3)):
             ts.append(Task(f'modify.{kind}.rows{o}to{n}', t_modify(kind, True, n, o), extra=x, overrides=dict(ov)))
     for pt in ('long', 'short', 'close'):
-        ts.append(Task(f'selectors.{pt}', t_selectors(pt), extra=dict(x, bounded='registry of N=3 orders (side and status symbolic)'), overrides=dict(ov)))
+        nsel = 3 if tier == 'quick' else 4
+        ts.append(Task(f'selectors.{pt}', t_selectors(pt, nsel), extra=dict(x, bounded=f'registry of N={nsel} orders (side and status symbolic)'), overrides=dict(ov),
+                       max_paths=400000))
+    ts.append(Task('reset', t_reset, extra=x, overrides=dict(ov)))
+    for kind in ('stop_loss', 'take_profit'):
+        ts.append(Task(f'inplace.{kind}', t_inplace_edit(kind), extra=x, overrides=dict(ov)))
     ts.append(Task('on-close', t_on_close, extra=x, overrides=dict(ov)))
     ts.append(Task('execute-cancel', t_execute_cancel, extra=x, overrides=dict(ov)))
     for n in (0, 1):
